@@ -3,6 +3,7 @@ package h
 import (
 	"cosmossdk.io/math"
 	transfertypes "github.com/cosmos/ibc-go/v8/modules/apps/transfer/types"
+	clienttypes "github.com/cosmos/ibc-go/v8/modules/core/02-client/types"
 	channeltypes "github.com/cosmos/ibc-go/v8/modules/core/04-channel/types"
 
 	fwdtypes "github.com/noble-assets/orbiter/v2/types/controller/forwarding"
@@ -13,11 +14,14 @@ import (
 func init() {
 	reg("H_C01_receivers", H_C01_receivers)
 	reg("H_C01_payloads", H_C01_payloads)
+	reg("H_C01_faults", H_C01_faults)
+	reg("H_C02_faults", H_C02_faults)
 	reg("H_C02_conservation", H_C02_conservation)
 	reg("H_C03_faults", H_C03_faults)
 	reg("H_C07_packets", H_C07_packets)
 	reg("H_C07_payloads", H_C07_payloads)
 	reg("H_C07_channels", H_C07_channels)
+	reg("H_C07_callbacks", H_C07_callbacks)
 	reg("H_C11_priors", H_C11_priors)
 }
 
@@ -25,6 +29,8 @@ func init() {
 // spellings of the orbiter address with every payload shape, pause and parameter configuration
 func H_C01_receivers() { H_C01_recv() }
 func H_C01_payloads()  { H_C01_recv() }
+func H_C01_faults()    { H_C01_recv() }        // the same with a failure bit at every environment call
+func H_C02_faults()    { H_C02_conservation() }
 func H_C07_packets()   { H_C07_passthrough() }
 func H_C07_payloads()  { H_C07_passthrough() }
 
@@ -45,7 +51,7 @@ const (
 // success ack => the orbiter account holds no more than before (in any denom), and if the packet was addressed to the
 // orbiter account, nothing of the transferred denom is left on it.
 func H_C01_recv() {
-	w := NewWorld(false)
+	w := NewWorld(verif.Bound("faults") > 0)
 	s := drawScenario()
 	s.apply(w, true)
 	before := snap(w.L)
@@ -70,7 +76,7 @@ func H_C01_recv() {
 
 // H_C02_conservation: on every successful orbiter transfer, over the whole ledger.
 func H_C02_conservation() {
-	w := NewWorld(false)
+	w := NewWorld(verif.Bound("faults") > 0)
 	s := drawScenario()
 	s.apply(w, true)
 	before := snap(w.L)
@@ -91,7 +97,11 @@ func H_C02_conservation() {
 	var outgoing verif.Z
 	switch s.route {
 	case routeCCTP:
-		outgoing = verif.ZOf(w.CCTP.burned)
+		burned := w.CCTP.burned
+		if burned.IsNil() {
+			burned = math.ZeroInt() // nothing was burned
+		}
+		outgoing = verif.ZOf(burned)
 		verif.Assert(verif.ZEq(d(iCCTP, 0), zero), "cctp-module-keeps-nothing")
 	case routeHyp:
 		outgoing = d(iWarp, 0)
@@ -186,13 +196,17 @@ func H_C07_passthrough() {
 	s := drawScenario()
 	s.apply(w, true)
 	garbage := verif.Bound("garbage") > 0 && verif.Bool("not-ics20-data")
-	if !garbage {
+	// data that only a lenient JSON decoder accepts (unknown field) is not an ICS-20 packet either, whoever it names
+	unknownField := !garbage && verif.Bound("garbage") > 0 && verif.Bool("ics20-json-with-an-unknown-field")
+	if !garbage && !unknownField {
 		verif.Assume(!s.toOrbiter())
 	}
 	d0 := verif.StateDigest(w.Ctx)
 	reads0 := w.L.reads
 	var pkt = packetOf(verif.Garbage())
-	if !garbage {
+	if unknownField {
+		pkt = packetOf(verif.EncodeICS20Unknown(s.data()))
+	} else if !garbage {
 		pkt = packetOf(verif.EncodeICS20(s.data()))
 	}
 	orbBefore := snap(w.L)[iOrb]
@@ -287,4 +301,66 @@ func H_C07_channels() {
 	verif.Assert(ack.Success(), "plain-transfer-over-any-valid-channel-succeeds")
 	verif.Assert(verif.StateDigest(w.Ctx) == d0 && len(w.Ev.list) == 0, "orbiter-state-untouched")
 	verif.Assert(!w.L.Bal(user2, nativeDenom).IsZero() || !w.L.Bal(user2, "ibc/VOUCHER").IsZero(), "receiver-credited-by-the-application")
+}
+
+// H_C07_callbacks: acknowledgement, timeout, channel and send paths are passed through unchanged: one call on the wrapped
+// object with identical arguments, its result returned as is, nothing of orbiter touched — whatever the packet says
+// (also for packets that were orbiter transfers when they were received).
+func H_C07_callbacks() {
+	w := NewWorld(false)
+	f, err := fwdtypes.NewInternalForwarding(user1.String())
+	must(err)
+	pl, err := core.NewPayload(f)
+	must(err)
+	d := transfertypes.FungibleTokenPacketData{Denom: voucherOnSender, Amount: "1000", Sender: "sender", Receiver: user2.String()}
+	if verif.Bool("orbiter-packet") {
+		d.Receiver = core.ModuleAddress.String()
+		d.Memo = verif.EncodeMemo(&core.PayloadWrapper{Orbiter: pl}, 0)
+	}
+	pkt := packetOf(verif.EncodeICS20(d))
+	pkt.Sequence = verif.Uint64("packet-sequence")
+	d0 := verif.StateDigest(w.Ctx)
+	ackBz := verif.Bytes("ack-bytes", 4)
+	var got error
+	which := verif.Choose("callback", 6)
+	switch which {
+	case 0:
+		got = w.MW.OnAcknowledgementPacket(w.Ctx, pkt, ackBz, relayerAddr)
+	case 1:
+		got = w.MW.OnTimeoutPacket(w.Ctx, pkt, relayerAddr)
+	case 2:
+		got = w.MW.OnChanCloseInit(w.Ctx, "transfer", "channel-0")
+	case 3:
+		got = w.MW.OnChanOpenConfirm(w.Ctx, "transfer", "channel-0")
+	case 4:
+		seq, e := w.MW.SendPacket(w.Ctx, nil, "transfer", "channel-0", clienttypes.Height{}, 77, pkt.Data)
+		got = e
+		verif.Assert(len(w.ICS4.cbs) == 1 && w.ICS4.cbs[0].method == "SendPacket", "send-reaches-the-ics4-wrapper-once")
+		if len(w.ICS4.cbs) == 1 {
+			c := w.ICS4.cbs[0]
+			verif.Assert(c.port == "transfer" && c.ch == "channel-0" && c.ts == 77 && string(c.data) == string(pkt.Data), "send-arguments-unchanged")
+		}
+		verif.Assert(e == w.ICS4.sndErr && (e != nil || seq == w.ICS4.seq), "send-result-unchanged")
+	case 5:
+		v, ok := w.MW.GetAppVersion(w.Ctx, "transfer", "channel-0")
+		verif.Assert(ok && v == "ics20-1" && len(w.ICS4.cbs) == 1, "app-version-passed-through")
+	}
+	verif.Cover("callback-called")
+	if which <= 3 {
+		verif.Assert(len(w.App.cbs) == 1, "callback-reaches-the-wrapped-application-once")
+		if len(w.App.cbs) == 1 {
+			c := w.App.cbs[0]
+			verif.Assert(c.method == []string{"OnAcknowledgementPacket", "OnTimeoutPacket", "OnChanCloseInit", "OnChanOpenConfirm"}[which], "same-callback")
+			if which <= 1 {
+				verif.Assert(string(c.packet.Data) == string(pkt.Data) && c.packet.Sequence == pkt.Sequence && c.packet.SourceChannel == pkt.SourceChannel && c.packet.DestinationChannel == pkt.DestinationChannel, "callback-packet-unchanged")
+				verif.Assert(string(c.relayer) == string(relayerAddr), "callback-relayer-unchanged")
+			}
+			if which == 0 {
+				verif.Assert(string(c.ack) == string(ackBz), "acknowledgement-bytes-unchanged")
+			}
+		}
+		verif.Assert(got == w.App.cbErr, "callback-result-unchanged")
+	}
+	verif.Assert(w.App.calls == 0, "receive-path-not-involved")
+	verif.Assert(verif.StateDigest(w.Ctx) == d0 && len(w.Ev.list) == 0 && len(w.L.sends) == 0 && w.L.reads == 0, "orbiter-untouched-by-callbacks")
 }
